@@ -1,14 +1,22 @@
-#!/usr/bin/env python3
+#!/usr/bin/env python3-vt
 """writes /verif/MANIFEST.json from the table below + which props/cXX.py exist"""
-import json, os
+import json, os, re
 V = os.path.dirname(os.path.dirname(os.path.abspath(__file__)))
 TECH = 'symbolic execution of clang-14 LLVM IR of the real glm code (own executor) + SMT (z3 / cvc5) decision, native replay of counterexamples'
 T = {
  'C05': ('proof', 'Every GLSL integer/bitfield function instance (8-64 bit, signed/unsigned, scalar and vec1-4) is executed symbolically from its clang IR with full-width free inputs and the solver shows the output equals a bit-level transcription of the GLSL 4.20 text for all inputs in the documented domain; counterexamples are replayed natively (g++ and clang).',
          'Trusted: clang-14 lowering, the IR executor/models (validated per run against native execution), z3/cvc5, the spec transcription. Known findings (usubBorrow, signed bitfieldExtract) are reported and the obligations re-proved outside their regions.', 'DESIGN.md section 3/C05'),
 }
+import sys, importlib
+sys.path.insert(0, V); sys.path.insert(0, os.path.join(V, 'engine'))
 def main():
     checks = []; na = []
+    for f in sorted(os.listdir(os.path.join(V, 'props'))):
+        m = re.fullmatch(r'(c\d+)\.py', f)
+        if not m: continue
+        mod = importlib.import_module('props.' + m.group(1))
+        if hasattr(mod, 'CLAIM'):
+            T[m.group(1).upper()] = (getattr(mod, 'LEVEL', 'proof'), mod.CLAIM, getattr(mod, 'NOTE', 'Trusted: clang-14 lowering, the IR executor/models (validated per run against native execution), z3/cvc5, the spec transcription in props/.') + ' Bounds: ' + getattr(mod, 'BOUNDS', '') + ' Outside the claim: ' + getattr(mod, 'OUTSIDE', ''), 'DESIGN.md section 3/' + m.group(1).upper())
     props = [json.loads(l) for l in open(os.path.join(V, 'properties.jsonl'))]
     for p in props:
         pid = p['id']
